@@ -2,7 +2,7 @@
    Per-thread stores plus one process-wide store; a context manager is an (enter, exit) pair;
    programs are well-nested trees of scopes with observations, raises and handlers.
    The thread-local scope functions come from Gen/ScopeDefs.v (regenerated from the source);
-   contextual override, class detouring, dynamic evaluation and on-demand deserialization types
+   class detouring, dynamic evaluation and on-demand deserialization types
    are written by hand here and tied to the code by the correspondence check.  Definitions only. *)
 From Coq Require Import ZArith List Bool PeanoNat.
 Import ListNotations.
@@ -34,7 +34,9 @@ Definition lift_enter (f : store -> option (store * list val)) (s : state) : opt
   match f (fst s) with Some (l, sv) => Some ((l, snd s), sv) | None => None end.
 Definition lift_exit (f : store -> store) (s : state) : state := (f (fst s), snd s).
 
-(* contextual.py: contextual_scope — an outer override marked `cascade` wins over the new one *)
+(* contextual.py: contextual_scope is generated (Gen.contextual_scope_enter / _exit).  The cascade rule as a
+   specification: an outer override marked `cascade` wins over the new one (Proofs/ScopesRestore.v shows the
+   generated loop computes exactly this). *)
 Definition cascade_of (a : atom) : bool := match a with AOv _ c _ => c | _ => false end.
 Definition contextual_merge (cur vars : dict) : dict :=
   fold_left (fun acc kv =>
@@ -43,14 +45,6 @@ Definition contextual_merge (cur vars : dict) : dict :=
                         | None => snd kv
                         end in
                dict_set (fst kv) v acc) vars cur.
-Definition contextual_enter (vars : val) (l : store) : option (store * list val) :=
-  let previous := tl_get k_contextual v_empty_dict l in
-  match previous, vars with
-  | VD p, VD vs => Some (tl_set k_contextual (VD (contextual_merge p vs)) l, [previous])
-  | _, _ => None      (* dict(previous_values) / **variables raise TypeError before anything is changed *)
-  end.
-Definition contextual_exit (saved : list val) (l : store) : store :=
-  match saved with [previous] => tl_set k_contextual previous l | _ => l end.
 
 (* class_detour.py: _DetourContext.enter_scope / leave_scope *)
 Definition detour_resolve (cur : dict) (m : Z * atom) : option (Z * atom) :=
@@ -102,7 +96,7 @@ Definition cm_enter (c : cm) (a : val) (s : state) : option (state * list val) :
   | CReprFmt => lift_enter (thread_local_arg_scope_enter k_repr_format a) s
   | CViewOpts => lift_enter (view_options_enter a) s
   | CCtx => lift_enter (context_enter a) s
-  | CContextual => lift_enter (contextual_enter a) s
+  | CContextual => lift_enter (contextual_scope_enter a) s
   | CDetour | CApplyWrappers => lift_enter (detour_enter a) s
   | CTimeit => lift_enter (timeit_enter a) s
   | CDynEval => dyn_enter a s
@@ -121,7 +115,7 @@ Definition cm_exit (c : cm) (a : val) (sv : list val) (s : state) : state :=
   | CReprFmt => lift_exit (thread_local_arg_scope_exit k_repr_format a sv) s
   | CViewOpts => lift_exit (view_options_exit a sv) s
   | CCtx => lift_exit (context_exit a sv) s
-  | CContextual => lift_exit (contextual_exit sv) s
+  | CContextual => lift_exit (contextual_scope_exit a sv) s
   | CDetour | CApplyWrappers => lift_exit detour_exit s
   | CTimeit => lift_exit (timeit_exit a sv) s
   | CDynEval => dyn_exit sv s
